@@ -7,6 +7,7 @@ import (
 	"encoding/hex"
 	"fmt"
 	"math/big"
+	"strconv"
 	"strings"
 
 	"github.com/iden3/go-iden3-crypto/v2/babyjub"
@@ -63,10 +64,10 @@ func (g *gen) fieldArith(pk string, m *big.Int) {
 		for _, op := range []string{"add", "sub", "mul", "div"} {
 			g.add("%s.%s@%s %s %s", pk, op, binAlias[r.intn(3)], x, y)
 		}
-		if x.Cmp(y) == 0 {
-			g.add("%s.add@xy %s %s", pk, x, y)
-			g.add("%s.mul@zxy %s %s", pk, x, y)
-			g.add("%s.sub@zxy %s %s", pk, x, y)
+		// both operands the same object, and destination = both operands: every binary operation
+		for _, op := range []string{"add", "sub", "mul", "div"} {
+			g.add("%s.%s@xy %s %s", pk, op, x, x)
+			g.add("%s.%s@zxy %s %s", pk, op, y, y)
 		}
 		for _, op := range []string{"neg", "double", "square", "inverse"} {
 			g.add("%s.%s@%s %s", pk, op, unAlias[r.intn(2)], x)
@@ -1112,6 +1113,41 @@ func (g *gen) mixed(n int) {
 		sg.add("bj.coordsign %s", h)
 	}
 	pool := sg.ops
+	if g.grouped {
+		// COLD START: the first use of every function (and of every Poseidon width / MiMC7 round count) in the
+		// process happens simultaneously on all goroutines — lazily built or lazily normalised package state is
+		// exercised while it is being built.  The harness itself calls nothing of the library before the ops.
+		key := func(op string) string {
+			f := strings.Fields(op)
+			k := strings.SplitN(f[0], "@", 2)[0]
+			if len(f) > 1 && strings.HasPrefix(f[1], "[") {
+				k += "#" + strconv.Itoa(strings.Count(f[1], ",")+1)
+			}
+			if (strings.HasSuffix(k, "generic") || strings.Contains(k, "hashgeneric")) && len(f) > 1 {
+				k += "#" + f[len(f)-1]
+			}
+			return k
+		}
+		byKey := map[string][]string{}
+		var keys []string
+		for _, op := range pool {
+			k := key(op)
+			if _, ok := byKey[k]; !ok {
+				keys = append(keys, k)
+			}
+			byKey[k] = append(byKey[k], op)
+		}
+		for _, k := range keys {
+			l := byKey[k]
+			n := 32 // two barrier rounds at -conc 16
+			if g.thor {
+				n = 128
+			}
+			for i := 0; i < n; i++ {
+				g.add(l[i%len(l)])
+			}
+		}
+	}
 	// ops that hand package-level constants to the library and then write through the result
 	var constOps []string
 	for _, s := range g.scalars() {
